@@ -6,19 +6,21 @@ Every style `Style.parse` returns is well-formed (`Style.wf`), so the round trip
 namespace RichModel
 open AsciiStr
 namespace Style
+variable {T : StrTables} [hT : T.Lawful]
 
 /-- What the loop of `parse` keeps true of its local variables. -/
-structure StOk (v : StyleVariant) (st : ParseState) : Prop where
-  color : ∀ w, st.color = some w → (∀ c ∈ w, isSpace c = false) ∧ lower w = w ∧ ∃ c, Color.parse v w = .ok c
-  bgcolor : ∀ w, st.bgcolor = some w → (∀ c ∈ w, isSpace c = false) ∧ ∃ c, Color.parse v w = .ok c
-  link : ∀ l, st.link = some l → l ≠ [] ∧ ∀ c ∈ l, isSpace c = false
+structure StOk (T : StrTables) (v : StyleVariant) (st : ParseState) : Prop where
+  color : ∀ w, st.color = some w → (∀ c ∈ w, T.isSpace c = false) ∧ T.lower w = w ∧ ∃ c, Color.parseT T v w = .ok c
+  bgcolor : ∀ w, st.bgcolor = some w → (∀ c ∈ w, T.isSpace c = false) ∧ ∃ c, Color.parseT T v w = .ok c
+  link : ∀ l, st.link = some l → l ≠ [] ∧ ∀ c ∈ l, T.isSpace c = false
 
-theorem stOk_init (v : StyleVariant) : StOk v {} := ⟨by simp, by simp, by simp⟩
+omit hT in
+theorem stOk_init (v : StyleVariant) : StOk T v {} := ⟨by simp, by simp, by simp⟩
 
 theorem parseLoop_stOk {v : StyleVariant} (ws : List (List Char)) (st st' : ParseState)
-    (hws : ∀ w ∈ ws, w ≠ [] ∧ ∀ c ∈ w, isSpace c = false) (hst : StOk v st)
-    (h : parseLoop v ws st = .ok st') : StOk v st' := by
-  fun_induction parseLoop v ws st with
+    (hws : ∀ w ∈ ws, w ≠ [] ∧ ∀ c ∈ w, T.isSpace c = false) (hst : StOk T v st)
+    (h : parseLoopT T v ws st = .ok st') : StOk T v st' := by
+  fun_induction parseLoopT T v ws st with
   | case1 st => cases h; exact hst
   | case5 ow st _ _ w rest' a hp ih =>
     refine ih (fun x hx => hws x (by simp [hx])) ⟨hst.color, ?_, hst.link⟩ h
@@ -41,20 +43,21 @@ theorem parseLoop_stOk {v : StyleVariant} (ws : List (List Char)) (st st' : Pars
     intro w' hw'
     simp only [Option.some.injEq] at hw'
     subst hw'
-    exact ⟨lower_noSpace (hws ow (by simp)).2, lower_idem ow, a, hp⟩
+    exact ⟨T.lower_noSpace (hws ow (by simp)).2, T.lower_idem ow, a, hp⟩
   | _ => cases h
 
-theorem wf_null (v : StyleVariant) : wf v Style.null = true := by
-  simp [wf, Style.null, wfLink]
+omit hT in
+theorem wf_null (v : StyleVariant) : wfT T v Style.null = true := by
+  simp [wfT, Style.null, wfLinkT]
 
 theorem str_null : str Style.null = render Style.null := by decide
 
 /-- **Every style `parse` returns is well-formed** (and its `str()` is what `__str__` computes). -/
-theorem parse_wf {v : StyleVariant} {d : List Char} {s : Style} (h : parse v d = .ok s) :
-    wf v s = true ∧ str s = render s := by
+theorem parse_wf {v : StyleVariant} {d : List Char} {s : Style} (h : parseT T v d = .ok s) :
+    wfT T v s = true ∧ str s = render s := by
   rcases parse_ok h with rfl | ⟨st, hloop, hinit⟩
   · exact ⟨wf_null v, str_null⟩
-  · have hst := parseLoop_stOk _ _ _ (split_words d) (stOk_init v) hloop
+  · have hst := parseLoop_stOk _ _ _ (T.split_words d) (stOk_init v) hloop
     have hinv := inv_init hinit
     obtain ⟨c', b', rfl, hcn, hbn, hcs, hbs⟩ := init_ok hinit
     refine ⟨?_, rfl⟩
@@ -69,10 +72,10 @@ theorem parse_wf {v : StyleVariant} {d : List Char} {s : Style} (h : parse v d =
         rw [hc'] at hc
         simp only [Option.some.injEq] at hc
         subst hc
-        simp only [makeColor] at hy
+        simp only [makeColorT] at hy
         obtain ⟨hns, hlow, _⟩ := hst.color w hw
         have hname : y.name = w := by
-          rw [Color.parse_name hy, hlow, strip_noSpace hns]
+          rw [Color.parseT_name T hy, hlow, T.strip_noSpace hns]
         rw [wfColor_iff, hname]
         exact ⟨hns, hy⟩
     · intro c hc
@@ -84,80 +87,97 @@ theorem parse_wf {v : StyleVariant} {d : List Char} {s : Style} (h : parse v d =
         rw [hc'] at hc
         simp only [Option.some.injEq] at hc
         subst hc
-        simp only [makeColor] at hy
+        simp only [makeColorT] at hy
         obtain ⟨hns, _⟩ := hst.bgcolor w hw
-        have hname : y.name = lower w := by
-          rw [Color.parse_name hy, strip_noSpace (lower_noSpace hns)]
-        rw [wfColor_iff, hname, Color.parse_lower]
-        exact ⟨lower_noSpace hns, hy⟩
+        have hname : y.name = T.lower w := by
+          rw [Color.parseT_name T hy, T.strip_noSpace (T.lower_noSpace hns)]
+        rw [wfColor_iff, hname, Color.parseT_lower T]
+        exact ⟨T.lower_noSpace hns, hy⟩
     · simp only
       cases hl : st.link with
-      | none => rfl
+      | none => simp [wfLinkT]
       | some l =>
         obtain ⟨hne, hns⟩ := hst.link l hl
-        simp [wfLink, hne, noSpace_iff.mpr hns]
+        have ht : strTruthy (some l) = true := by
+          cases l with
+          | nil => exact absurd rfl hne
+          | cons a r => rfl
+        rw [storedLink_truthy v ht]
+        simp [wfLinkT, hne, noSpace_iff.mpr hns]
 
 /-- `str` only depends on the compared fields once the cache is sound. -/
 theorem render_eq_of_eq {a b : Style} (h : eq a b = true) : render a = render b := by
   obtain ⟨h1, h2, h3, h4, h5⟩ := eq_iff.mp h
   exact render_congr h1 h2 h4 h3 h5
 
-theorem wf_congr {v : StyleVariant} {a b : Style} (h : eq a b = true) : wf v a = wf v b := by
+omit hT in
+theorem wf_congr {v : StyleVariant} {a b : Style} (h : eq a b = true) : wfT T v a = wfT T v b := by
   obtain ⟨h1, h2, h3, h4, h5⟩ := eq_iff.mp h
-  simp [wf, h1, h2, h3, h4, h5]
+  simp [wfT, h1, h2, h3, h4, h5]
 
 /-! ### successful parses do not depend on the code variant -/
 
 
+omit hT in
 theorem parseLoop_ok_indep {v v' : StyleVariant} (ws : List (List Char)) (st st' : ParseState)
-    (h : parseLoop v ws st = .ok st') : parseLoop v' ws st = .ok st' := by
-  fun_induction parseLoop v ws st with
+    (h : parseLoopT T v ws st = .ok st') : parseLoopT T v' ws st = .ok st' := by
+  fun_induction parseLoopT T v ws st with
   | case1 st => exact h
   | case5 ow st _ hw w rest' a hp ih =>
-    have hw' : (lower ow == cl! "on") = true := hw
-    rw [parseLoop.eq_def]
-    simp only [hw', if_true, Color.parse_ok_indep (v' := v') hp]
+    have hw' : (T.lower ow == cl! "on") = true := hw
+    rw [parseLoopT.eq_def]
+    simp only [hw', if_true, Color.parseT_ok_indep T (v' := v') hp]
     exact ih h
   | case8 ow st _ h1 h2 w rest' i hi ih =>
-    have h1' : ¬ (lower ow == cl! "on") = true := h1
-    have h2' : (lower ow == cl! "not") = true := h2
-    rw [parseLoop.eq_def]
+    have h1' : ¬ (T.lower ow == cl! "on") = true := h1
+    have h2' : (T.lower ow == cl! "not") = true := h2
+    rw [parseLoopT.eq_def]
     simp only [h1', h2', if_true, hi]
     exact ih h
   | case10 ow st _ h1 h2 h3 w rest' ih =>
-    have h1' : ¬ (lower ow == cl! "on") = true := h1
-    have h2' : ¬ (lower ow == cl! "not") = true := h2
-    have h3' : (lower ow == cl! "link") = true := h3
-    rw [parseLoop.eq_def]
+    have h1' : ¬ (T.lower ow == cl! "on") = true := h1
+    have h2' : ¬ (T.lower ow == cl! "not") = true := h2
+    have h3' : (T.lower ow == cl! "link") = true := h3
+    rw [parseLoopT.eq_def]
     simp only [h1', h2', h3', if_true]
     exact ih h
   | case11 ow rest st _ h1 h2 h3 i hi ih =>
-    have h1' : ¬ (lower ow == cl! "on") = true := h1
-    have h2' : ¬ (lower ow == cl! "not") = true := h2
-    have h3' : ¬ (lower ow == cl! "link") = true := h3
-    have hi' : attrIndex (lower ow) = some i := hi
-    rw [parseLoop.eq_def]
+    have h1' : ¬ (T.lower ow == cl! "on") = true := h1
+    have h2' : ¬ (T.lower ow == cl! "not") = true := h2
+    have h3' : ¬ (T.lower ow == cl! "link") = true := h3
+    have hi' : attrIndex (T.lower ow) = some i := hi
+    rw [parseLoopT.eq_def]
     simp only [h1', h2', h3', hi']
     exact ih h
   | case14 ow rest st _ h1 h2 h3 hn a hp ih =>
-    have h1' : ¬ (lower ow == cl! "on") = true := h1
-    have h2' : ¬ (lower ow == cl! "not") = true := h2
-    have h3' : ¬ (lower ow == cl! "link") = true := h3
-    have hn' : attrIndex (lower ow) = none := hn
-    have hp' : Color.parse v (lower ow) = .ok a := hp
-    rw [parseLoop.eq_def]
-    simp only [h1', h2', h3', hn', Color.parse_ok_indep (v' := v') hp']
+    have h1' : ¬ (T.lower ow == cl! "on") = true := h1
+    have h2' : ¬ (T.lower ow == cl! "not") = true := h2
+    have h3' : ¬ (T.lower ow == cl! "link") = true := h3
+    have hn' : attrIndex (T.lower ow) = none := hn
+    have hp' : Color.parseT T v (T.lower ow) = .ok a := hp
+    rw [parseLoopT.eq_def]
+    simp only [h1', h2', h3', hn', Color.parseT_ok_indep T (v' := v') hp']
     exact ih h
   | _ => cases h
 
-theorem init_ok_indep {v v' : StyleVariant} {c b kw l s} (h : init v c b kw l = .ok s) : init v' c b kw l = .ok s := by
+omit hT in
+/-- `__init__` on a link that is not the empty string gives the same object in every code variant
+(the variants differ in error kinds, stored hashes, the `update_link` cache and the empty link only). -/
+theorem init_ok_indep {v v' : StyleVariant} {c b kw l s} (hl : l ≠ some [])
+    (h : initT T v c b kw l = .ok s) : initT T v' c b kw l = .ok s := by
   obtain ⟨c', b', rfl, hcn, hbn, hcs, hbs⟩ := init_ok h
-  have mk : ∀ x y, makeColor v x = .ok y → makeColor v' x = .ok y := by
+  have mk : ∀ x y, makeColorT T v x = .ok y → makeColorT T v' x = .ok y := by
     intro x y hx
     cases x with
-    | str w => exact Color.parse_ok_indep hx
+    | str w => exact Color.parseT_ok_indep T hx
     | color k => exact hx
-  unfold init
+  have hsl : ∀ u : StyleVariant, storedLink u l = l := by
+    intro u
+    rcases linkOk_cases hl with h0 | h0
+    · rw [h0]; exact storedLink_none u
+    · exact storedLink_truthy u h0
+  unfold initT
+  rw [hsl v, hsl v']
   cases c with
   | none =>
     rw [hcn rfl]
@@ -174,11 +194,10 @@ theorem init_ok_indep {v v' : StyleVariant} {c b kw l s} (h : init v c b kw l = 
       obtain ⟨z', hz', rfl⟩ := hbs y rfl
       simp [mk x z hz, mk y z' hz', Except.map]
 
-/-- A successful `Style.parse` does not depend on the code variant (the variants differ in error
-kinds, stored hashes and the `update_link` cache only). -/
-theorem parse_ok_indep {v v' : StyleVariant} {d : List Char} {s : Style} (h : parse v d = .ok s) :
-    parse v' d = .ok s := by
-  unfold parse at h ⊢
+/-- A successful `Style.parse` does not depend on the code variant. -/
+theorem parse_ok_indep {v v' : StyleVariant} {d : List Char} {s : Style} (h : parseT T v d = .ok s) :
+    parseT T v' d = .ok s := by
+  unfold parseT at h ⊢
   split at h
   · rename_i hc; simp only [hc, if_true]; exact h
   · rename_i hc
@@ -187,7 +206,10 @@ theorem parse_ok_indep {v v' : StyleVariant} {d : List Char} {s : Style} (h : pa
     · cases h
     · rename_i st hst
       rw [parseLoop_ok_indep _ _ _ hst]
-      exact init_ok_indep h
+      have hlk : st.link ≠ some [] := by
+        intro hl
+        exact ((parseLoop_stOk _ _ _ (T.split_words d) (stOk_init v) hst).link [] hl).1 rfl
+      exact init_ok_indep hlk h
 
 end Style
 end RichModel
